@@ -381,6 +381,12 @@ def run_case(case, replay=None):
     except Exception as e:
         mem_exc = e
     sched = case["sched"]
+    xmodes = case.get("xmodes")
+    if case.get("bagform") == "generator" and sched["mode"] in ("isolated", "placed"):
+        # a generator cannot cross a serialisation boundary (see gen_case): whatever built the
+        # case, generator partitions are only ever run on the shared-memory executors
+        sched = dict(sched, mode="shared")
+        xmodes = False
 
     def go():
         with np.errstate(all="ignore"):
@@ -411,7 +417,7 @@ def run_case(case, replay=None):
                                           "layout": lay, "mode": sched["mode"],
                                           "mem": L(dict_get(mem, bad[0])),
                                           "dask": L(dict_get(d, bad[0]))}, **rec.fields())
-    if case.get("xmodes"):
+    if xmodes:
         for mode in MODES:
             if mode == sched["mode"]:
                 continue
